@@ -501,9 +501,9 @@ pub fn dispatch(t: &[Tok]) -> String {
         "dbody" => {
             let (x, y) = (b(t, 3), b(t, 4));
             let r = match n(t, 1) {
-                12 => tlsh::verif::distance_12_by(s(t, 2), x.try_into().unwrap(), y.try_into().unwrap()),
-                32 => tlsh::verif::distance_32_by(s(t, 2), x.try_into().unwrap(), y.try_into().unwrap()),
-                64 => tlsh::verif::distance_64_by(s(t, 2), x.try_into().unwrap(), y.try_into().unwrap()),
+                12 => L!(tlsh::verif::distance_12_by(s(t, 2), x.try_into().unwrap(), y.try_into().unwrap())),
+                32 => L!(tlsh::verif::distance_32_by(s(t, 2), x.try_into().unwrap(), y.try_into().unwrap())),
+                64 => L!(tlsh::verif::distance_64_by(s(t, 2), x.try_into().unwrap(), y.try_into().unwrap())),
                 _ => panic!("HARNESS: bad body size"),
             };
             match r {
@@ -544,7 +544,7 @@ pub fn dispatch(t: &[Tok]) -> String {
             match n(t, 1) {
                 48 => {
                     let mut out = [0u8; 12];
-                    if tlsh::verif::aggregate_48_by(be, &mut out, bk.as_slice().try_into().unwrap(), q1, q2, q3) {
+                    if L!(tlsh::verif::aggregate_48_by(be, &mut out, bk.as_slice().try_into().unwrap(), q1, q2, q3)) {
                         hex(&out)
                     } else {
                         "na".to_string()
@@ -552,7 +552,7 @@ pub fn dispatch(t: &[Tok]) -> String {
                 }
                 128 => {
                     let mut out = [0u8; 32];
-                    if tlsh::verif::aggregate_128_by(be, &mut out, bk.as_slice().try_into().unwrap(), q1, q2, q3) {
+                    if L!(tlsh::verif::aggregate_128_by(be, &mut out, bk.as_slice().try_into().unwrap(), q1, q2, q3)) {
                         hex(&out)
                     } else {
                         "na".to_string()
@@ -560,7 +560,7 @@ pub fn dispatch(t: &[Tok]) -> String {
                 }
                 256 => {
                     let mut out = [0u8; 64];
-                    if tlsh::verif::aggregate_256_by(be, &mut out, bk.as_slice().try_into().unwrap(), q1, q2, q3) {
+                    if L!(tlsh::verif::aggregate_256_by(be, &mut out, bk.as_slice().try_into().unwrap(), q1, q2, q3)) {
                         hex(&out)
                     } else {
                         "na".to_string()
